@@ -127,6 +127,22 @@ CHECKS = {
         "circuits by the per-mode comparison in Coq, not proved for arbitrary circuits. Follows the fixed code (F17, F18). Expansion of an "
         "already solved model raises and is outside the model.",
    technique="Coq proof (index/block-diagonal algebra, wave-level independence per block, list lemmas) + vm_compute correspondence", design="§5 C13"),
+ "C14": dict(
+   text="Proof: props/C14.v. For every pin set (with or without modes), every index assignment, every matrix and every sweep point "
+        "(first and last included) the loaded model has exactly the exported pins, each once, and holds between p and q the stored and "
+        "re-read coefficient the exported model has between p and q — not q and p (roundtrip_coeff / roundtrip_grid; name clashes make "
+        "the model's export return Err, so no well-formedness hypothesis); a loaded one-parameter model evaluates at every exported "
+        "sweep value to that point's coefficient (eval_at_grid) and interpolates linearly between neighbours (eval_between, from "
+        "interp_grid / interp_between for all strictly increasing grids) and is undefined outside; a mode mapping keeps exactly the "
+        "mapped pins, renamed, and changes no kept coefficient (mode_select_ok); |z|^2 and arg z determine z (polar_roundtrip, over the "
+        "reals). The tie exports hand-made and really solved sweeps with /repo, loads them with the real loader and compares pins and "
+        "every coefficient at every exported point and at in-between values with the model.",
+   note="Trusted: Coq kernel + vm_compute; Bignums primitives; Coq.Reals axioms for polar_roundtrip only; model InPulse.v/Interp.v tied by "
+        "sampled correspondence; YAML/CSV, decimal printing and parsing, numpy and scipy interpolators are modelled (enc/dec parameters, "
+        "interp1) not verified — their joint effect is what the tie observes. Two-parameter files: grid points only. Follows the fixed "
+        "code (F20, F21). A sweep in which a second parameter is constant is outside the property's quantifier (it cannot be loaded: "
+        "DESIGN.md).",
+   technique="Coq proof (codec/pin-table/matrix-assembly algebra for all models; interpolation lemmas over Q) + vm_compute correspondence against real export/import", design="§5 C14"),
  "C19": dict(
    text="Proof: props/C19.v, for all hierarchies (induction over the nested tree): after prune no dead branch — empty model, or solver "
         "containing (recursively) nothing else — is left at any level (prune_no_dead); a hierarchy without dead branches is returned "
